@@ -107,7 +107,10 @@ def handle : List String → String
       let sp := match lrun (linit (if cls == "book" then .book else .article) d) evs with
         | some S => "ok:" ++ outsStr S.outs ++ "#" ++ valsStr (S.vals.drop (stdCounters S.cls).length)
         | none => "-"
-      s!"{m}\t{sp}"
+      -- hypotheses of the list theorems, checked on this very input: every event is `listSafe`, the history is
+      -- well nested (`stackAfter` defined), and the initial state satisfies `ListInv … []`
+      let hyp := s!"L:{boolStr (evs.all listSafe)}:{boolStr (stackAfter [] evs).isSome}:{boolStr (decide (ListInv st0 []))}"
+      s!"{m}\t{sp}\t{hyp}"
     | _, _ => "bad-op"
   | "fmt" :: ws =>
     match parseFmt (ws.length + 1) ws [] [] with
